@@ -5,6 +5,7 @@ import (
 	"go.flow.arcalot.io/engine/zverif/ir"
 	"go.flow.arcalot.io/engine/zverif/simrt"
 	"math"
+	"os"
 	"pgregory.net/rapid"
 	"strings"
 )
@@ -25,6 +26,14 @@ var allBad = []string{"err", "crash", "alt", "panic", "badout"}
 var someDurs = []int64{0, 1, 5, 20, 100, 1000}
 
 func pickProfile(t *rapid.T, profs []*ir.Profile) *ir.Profile {
+	if only := os.Getenv("VERIF_PROFILE"); only != "" {
+		// a debugging aid: explore one profile only
+		for _, p := range profs {
+			if p.Name == only {
+				return p
+			}
+		}
+	}
 	return profs[rapid.IntRange(0, len(profs)-1).Draw(t, "profile")]
 }
 
@@ -126,6 +135,8 @@ func init() {
 		{Name: "c01-stop", MinSteps: 1, MaxSteps: 3, Durs: []int64{0, 5, 50}, StopIf: true},
 	}
 	c01 = append(c01, c01[len(c01)-1]) // the stop shape twice: it is one shape among many profiles
+	// ... and with the output waiting for the crash report of the stopped step (when it ignores the signal)
+	c01 = append(c01, &ir.Profile{Name: "c01-stop-crash", MinSteps: 1, MaxSteps: 2, Durs: []int64{0, 5}, StopIf: true, StructRefs: true})
 	register(&PropDef{ID: "C01",
 		Gen:   func(t *rapid.T) *Case { return genS1(t, "C01", c01, true) },
 		Check: s1Check("C01", OracleTerminates, OraclePrompt),
